@@ -953,23 +953,14 @@ theorem Sys.commit_adv (s : Sys) (t : Txn) (nu : Nu) (h : TAdv { catalog := s.ca
   · simp only [hd, ↓reduceIte]
     exact ⟨es, he⟩
 
-theorem insert_hk {sch : SchemaEval} {s : Sys} {t : Txn} {h : Handle} {list : List Doc} {ordered : Bool}
-    {nu nu' : Nu} {r : TResult} (hm : Txn.insert sch { catalog := s.catalog } h list ordered nu = .ok (t, r, nu'))
-    (hok : CatOK s.catalog) (hok' : CatOK (s.commit t nu').catalog) :
-    h ≠ oplogHandle → KeysDistinct (ensureNs t.catalog h) := by
-  intro hno
-  rcases Txn.insert_step hm with rfl | ⟨hd, _⟩
-  · exact (hok h hno).2
-  · have : (s.commit t nu').catalog = t.catalog := by simp [Sys.commit, hd]
-    rw [this] at hok'
-    exact (hok' h hno).2
-
-theorem Sys.step_adv (sch : SchemaEval) (s s' : Sys) (c : Call) (oids : List V) (r : Reply)
-    (hcov : c.covered = true) (hp : OplogPlain s.catalog) (hok : CatOK s.catalog) (hok' : CatOK s'.catalog)
-    (hr : Sys.step sch s c oids = .ok (s', r)) : ∃ es, Adv s.catalog s'.catalog es := by
+/-- a covered call, run on any transaction over a coherent catalog and ending in a coherent one,
+    returns the transaction itself or a dirty one whose new events replay faithfully -/
+theorem runCall_adv (sch : SchemaEval) (t0 t : Txn) (nu nu' : Nu) (c : Call) (r : Reply)
+    (hcov : c.covered = true) (hp : OplogPlain t0.catalog) (hok : CatOK t0.catalog) (hok' : CatOK t.catalog)
+    (hr : runCall sch t0 nu c = .ok (t, nu', r)) : TAdv t0 t := by
   cases c with
   | insertOne h doc =>
-    simp only [Sys.step] at hr
+    simp only [runCall] at hr
     split at hr
     · cases hr
     · rename_i t res nu1 hm
@@ -978,156 +969,179 @@ theorem Sys.step_adv (sch : SchemaEval) (s s' : Sys) (c : Call) (oids : List V) 
       · split at hr
         · simp only [Except.ok.injEq, Prod.mk.injEq] at hr
           obtain ⟨rfl, _⟩ := hr
-          exact Sys.commit_adv s t nu1 (Txn.insert_adv hm (insert_hk hm hok hok'))
+          exact Txn.insert_adv hm (fun hno => (hok' h hno).2)
         · cases hr
   | insertMany h docs ordered =>
-    simp only [Sys.step] at hr
+    simp only [runCall] at hr
     split at hr
     · cases hr
     · rename_i t res nu1 hm
       simp only [Except.ok.injEq, Prod.mk.injEq] at hr
       obtain ⟨rfl, _⟩ := hr
-      exact Sys.commit_adv s t nu1 (Txn.insert_adv hm (insert_hk hm hok hok'))
+      exact Txn.insert_adv hm (fun hno => (hok' h hno).2)
   | find h q o =>
-    simp only [Sys.step] at hr
+    simp only [runCall] at hr
     split at hr
     · cases hr
     · split at hr
       · cases hr
       · simp only [Except.ok.injEq, Prod.mk.injEq] at hr
-        exact hr.1 ▸ ⟨[], Adv.refl _⟩
+        exact hr.1 ▸ .inl rfl
   | findOne h q o =>
-    simp only [Sys.step] at hr
+    simp only [runCall] at hr
     split at hr
     · cases hr
     · simp only [Except.ok.injEq, Prod.mk.injEq] at hr
-      exact hr.1 ▸ ⟨[], Adv.refl _⟩
+      exact hr.1 ▸ .inl rfl
     · split at hr
       · cases hr
       · simp only [Except.ok.injEq, Prod.mk.injEq] at hr
-        exact hr.1 ▸ ⟨[], Adv.refl _⟩
+        exact hr.1 ▸ .inl rfl
   | count h q skip limit =>
-    simp only [Sys.step] at hr
+    simp only [runCall] at hr
     split at hr
     · cases hr
     · simp only [Except.ok.injEq, Prod.mk.injEq] at hr
-      exact hr.1 ▸ ⟨[], Adv.refl _⟩
+      exact hr.1 ▸ .inl rfl
   | estCount h =>
-    simp only [Sys.step] at hr
+    simp only [runCall] at hr
     split at hr
     · cases hr
     · simp only [Except.ok.injEq, Prod.mk.injEq] at hr
-      exact hr.1 ▸ ⟨[], Adv.refl _⟩
+      exact hr.1 ▸ .inl rfl
   | distinct h field q =>
-    simp only [Sys.step] at hr
+    simp only [runCall] at hr
     split at hr
     · cases hr
     · simp only [Except.ok.injEq, Prod.mk.injEq] at hr
-      exact hr.1 ▸ ⟨[], Adv.refl _⟩
+      exact hr.1 ▸ .inl rfl
   | updateOne h q u upsert fs => simp [Call.covered] at hcov
   | updateMany h q u upsert fs => simp [Call.covered] at hcov
   | replaceOne h q repl upsert => simp [Call.covered] at hcov
   | deleteOne h q =>
-    simp only [Sys.step] at hr
+    simp only [runCall] at hr
     split at hr
     · cases hr
     · rename_i t res nu1 hm
       simp only [Except.ok.injEq, Prod.mk.injEq] at hr
-      exact hr.1 ▸ Sys.commit_adv s t nu1 (Txn.delete_adv (hok h) hm)
+      exact hr.1 ▸ Txn.delete_adv (hok h) hm
   | deleteMany h q =>
-    simp only [Sys.step] at hr
+    simp only [runCall] at hr
     split at hr
     · cases hr
     · rename_i t res nu1 hm
       simp only [Except.ok.injEq, Prod.mk.injEq] at hr
-      exact hr.1 ▸ Sys.commit_adv s t nu1 (Txn.delete_adv (hok h) hm)
+      exact hr.1 ▸ Txn.delete_adv (hok h) hm
   | findOneAndDelete h q sort proj =>
-    simp only [Sys.step] at hr
+    simp only [runCall] at hr
     split at hr
     · cases hr
     · rename_i t res nu1 hm
       split at hr
       · cases hr
       · simp only [Except.ok.injEq, Prod.mk.injEq] at hr
-        exact hr.1 ▸ Sys.commit_adv s t nu1 (Txn.delete_adv (hok h) hm)
+        exact hr.1 ▸ Txn.delete_adv (hok h) hm
   | findOneAndReplace h q repl sort proj upsert after => simp [Call.covered] at hcov
   | findOneAndUpdate h q u sort proj upsert after fs => simp [Call.covered] at hcov
   | bulkWrite h models ordered => simp [Call.covered] at hcov
   | createIndex h name config =>
-    simp only [Sys.step] at hr
+    simp only [runCall] at hr
     split at hr
     · cases hr
     · rename_i t name' hm
       simp only [Except.ok.injEq, Prod.mk.injEq] at hr
-      exact hr.1 ▸ Sys.commit_adv s t _ (Txn.createIndex_adv hm)
+      exact hr.1 ▸ Txn.createIndex_adv hm
   | dropIndex h name =>
-    simp only [Sys.step] at hr
+    simp only [runCall] at hr
     split at hr
     · cases hr
     · rename_i t hm
       simp only [Except.ok.injEq, Prod.mk.injEq] at hr
-      exact hr.1 ▸ Sys.commit_adv s t _ (Txn.dropIndex_adv hm)
+      exact hr.1 ▸ Txn.dropIndex_adv hm
   | dropAllIndexes h =>
-    simp only [Sys.step] at hr
+    simp only [runCall] at hr
     split at hr
     · cases hr
     · rename_i t hm
       simp only [Except.ok.injEq, Prod.mk.injEq] at hr
-      exact hr.1 ▸ Sys.commit_adv s t _ (Txn.dropIndex_adv hm)
+      exact hr.1 ▸ Txn.dropIndex_adv hm
   | dropIndexByKey h key =>
-    simp only [Sys.step] at hr
+    simp only [runCall] at hr
     split at hr
     · cases hr
     · rename_i t hm
       simp only [Except.ok.injEq, Prod.mk.injEq] at hr
-      exact hr.1 ▸ Sys.commit_adv s t _ (Txn.dropIndexByKey_adv hm)
+      exact hr.1 ▸ Txn.dropIndexByKey_adv hm
   | listIndexes h =>
-    simp only [Sys.step] at hr
+    simp only [runCall] at hr
     split at hr
     · cases hr
     · simp only [Except.ok.injEq, Prod.mk.injEq] at hr
-      exact hr.1 ▸ ⟨[], Adv.refl _⟩
+      exact hr.1 ▸ .inl rfl
   | createCollection h =>
-    simp only [Sys.step] at hr
+    simp only [runCall] at hr
     split at hr
     · cases hr
     · rename_i t hm
       simp only [Except.ok.injEq, Prod.mk.injEq] at hr
-      exact hr.1 ▸ Sys.commit_adv s t _ (Txn.create_adv hm)
+      exact hr.1 ▸ Txn.create_adv hm
   | dropCollection h =>
-    simp only [Sys.step] at hr
+    simp only [runCall] at hr
     split at hr
     · cases hr
     · rename_i t nu1 hm
       simp only [Except.ok.injEq, Prod.mk.injEq] at hr
-      exact hr.1 ▸ Sys.commit_adv s t _ (Txn.drop_adv hm)
+      exact hr.1 ▸ Txn.drop_adv hm
   | dropDatabase db =>
-    simp only [Sys.step] at hr
+    simp only [runCall] at hr
     split at hr
     · cases hr
     · rename_i t nu1 hm
       simp only [Except.ok.injEq, Prod.mk.injEq] at hr
-      exact hr.1 ▸ Sys.commit_adv s t _ (Txn.drop_adv hm)
+      exact hr.1 ▸ Txn.drop_adv hm
   | listCollections db q =>
-    simp only [Sys.step] at hr
+    simp only [runCall] at hr
     split at hr
     · cases hr
     · split at hr
       · cases hr
       · simp only [Except.ok.injEq, Prod.mk.injEq] at hr
-        exact hr.1 ▸ ⟨[], Adv.refl _⟩
+        exact hr.1 ▸ .inl rfl
   | listDatabases q =>
-    simp only [Sys.step] at hr
+    simp only [runCall] at hr
     split at hr
     · cases hr
     · simp only [Except.ok.injEq, Prod.mk.injEq] at hr
-      exact hr.1 ▸ ⟨[], Adv.refl _⟩
+      exact hr.1 ▸ .inl rfl
   | expire nowMs =>
-    simp only [Sys.step] at hr
+    simp only [runCall] at hr
     split at hr
     · cases hr
     · rename_i t n nu1 hm
       simp only [Except.ok.injEq, Prod.mk.injEq] at hr
-      exact hr.1 ▸ Sys.commit_adv s t _ (Txn.expire_adv hp hok hm)
+      exact hr.1 ▸ Txn.expire_adv hp hok hm
+
+
+theorem TAdv.step {t t' : Txn} (h : TAdv t t') : TStep t t' := by
+  rcases h with rfl | ⟨hd, es, he⟩
+  · exact .inl rfl
+  · exact .inr ⟨hd, es, he.ext⟩
+
+theorem Sys.step_adv (sch : SchemaEval) (s s' : Sys) (c : Call) (oids : List V) (r : Reply)
+    (hcov : c.covered = true) (hp : OplogPlain s.catalog) (hok : CatOK s.catalog) (hok' : CatOK s'.catalog)
+    (hr : Sys.step sch s c oids = .ok (s', r)) : ∃ es, Adv s.catalog s'.catalog es := by
+  unfold Sys.step at hr
+  split at hr
+  · cases hr
+  · rename_i t nu1 r1 hrun
+    simp only [Except.ok.injEq, Prod.mk.injEq] at hr
+    obtain ⟨rfl, _⟩ := hr
+    have hokt : CatOK t.catalog := by
+      rcases runCall_step sch _ t _ nu1 c r1 hp hrun with rfl | ⟨hd, _⟩
+      · exact hok
+      · have : (s.commit t nu1).catalog = t.catalog := by simp [Sys.commit, hd]
+        rw [this] at hok'
+        exact hok'
+    exact Sys.commit_adv s t nu1 (runCall_adv sch _ t _ nu1 c r1 hcov hp hok hokt hrun)
 
 end Lungo
